@@ -21,7 +21,7 @@ def foreign_block(rng, coin):
 
 
 def make_layout(rng, chain, coin, assign="contiguous", nfiles=3, gaps="none", numbering="seq", pad=5, sparse=False,
-                extras=False, index_style=None, file_order="asc"):
+                extras=False, index_style=None, file_order="asc", symlinks=False):
     """Returns kwargs for write_datadir plus a description. chain: list of (height, Block)."""
     coin = COINS[coin] if isinstance(coin, str) else coin
     n = len(chain)
@@ -135,10 +135,14 @@ def make_layout(rng, chain, coin, assign="contiguous", nfiles=3, gaps="none", nu
     index_opts = dict(index_style or {})
     if rng.random() < 0.5:
         index_opts["vary_records"] = rng.getrandbits(32)     # record fields as nodes of different ages write them
+    linked = sorted(rng.sample(sorted(names), max(1, len(names) // 2))) if symlinks else []
     desc = {"assign": assign, "files": len(used), "gaps": gaps, "numbering": numbering, "pad": pad, "sparse": sparse, "extras": extras,
-            "index": index_opts, "file_order": file_order}
-    return dict(placements=placements, names=names, extra_keys=extra_keys, extra_files=extra_files, index_opts=index_opts, order=order,
-                header_only=header_only), desc, pl_index
+            "index": index_opts, "file_order": file_order, "symlinked_files": len(linked)}
+    kw = dict(placements=placements, names=names, extra_keys=extra_keys, extra_files=extra_files, index_opts=index_opts, order=order,
+              header_only=header_only)
+    if linked:
+        kw["symlink_files"] = linked
+    return kw, desc, pl_index
 
 
 def add_harmless_competitors(rng, chain, coin, kw, count=3):
